@@ -5,9 +5,11 @@ import (
 	"fmt"
 	"math"
 	"strconv"
+	"strings"
 
 	"github.com/metrico/qryn/writer/utils/unmarshal"
 	common "go.opentelemetry.io/proto/otlp/common/v1"
+	v1 "go.opentelemetry.io/proto/otlp/trace/v1"
 	"google.golang.org/protobuf/proto"
 	"pgregory.net/rapid"
 
@@ -47,7 +49,7 @@ func floatTextMatches(v string, f float64) bool {
 func flattenInto(path string, v gen.AnyVal, scalar map[string][]cand, loose map[string][]cand) {
 	switch v.K {
 	case "s":
-		scalar[path] = append(scalar[path], cand{kind: 'x', s: v.S})
+		scalar[path] = append(scalar[path], cand{kind: 'x', s: v.Str()})
 	case "b":
 		scalar[path] = append(scalar[path], cand{kind: 'x', s: strconv.FormatBool(v.B)})
 	case "i":
@@ -93,7 +95,7 @@ func topLevel(kvs []gen.KeyVal, key string) []gen.AnyVal {
 // resource, qryn also honours a span-level one; either is accepted when both exist. When no
 // service.name exists anywhere qryn falls back to other members of the family or a fixed
 // placeholder: any of those is accepted (the property does not rank them).
-func otlpExpect(sp gen.OTLPSpan, res gen.OTLPResource, desc string) spanExpect {
+func otlpExpect(sp gen.OTLPSpan, res gen.OTLPResource, scopeAttrs []gen.KeyVal, desc string) spanExpect {
 	tid, _ := hex.DecodeString(sp.TraceID)
 	sid, _ := hex.DecodeString(sp.SpanID)
 	pid, _ := hex.DecodeString(sp.ParentID)
@@ -126,6 +128,17 @@ func otlpExpect(sp gen.OTLPSpan, res gen.OTLPResource, desc string) spanExpect {
 		addOpt(k, cs)
 	}
 	for k, cs := range resLoose {
+		addOpt(k, cs)
+	}
+	// qryn ignores the instrumentation scope's attributes; rows for them would not be wrong
+	scScalar, scLoose := map[string][]cand{}, map[string][]cand{}
+	for _, kv := range scopeAttrs {
+		flattenInto(kv.Key, kv.Val, scScalar, scLoose)
+	}
+	for k, cs := range scScalar {
+		addOpt(k, cs)
+	}
+	for k, cs := range scLoose {
 		addOpt(k, cs)
 	}
 	// synthesised rows
@@ -167,9 +180,24 @@ func otlpExpect(sp gen.OTLPSpan, res gen.OTLPResource, desc string) spanExpect {
 	return e
 }
 
+// caseTags collects class labels so that each is counted once per case.
+type caseTags map[string]bool
+
+func (t caseTags) Tag(tags ...string) {
+	for _, x := range tags {
+		t[x] = true
+	}
+}
+
 func predOTLP(c otlpCase, o *evid.Obs) error {
+	ct := caseTags{}
+	defer func() {
+		for t := range ct {
+			o.Tag(t)
+		}
+	}()
 	body := c.Batch.Body()
-	rows, tags, err := runSpanParser(unmarshal.UnmarshalOTLPV2, body)
+	rows, tags, nresp, err := runSpanParserN(unmarshal.UnmarshalOTLPV2, body)
 	if err != nil {
 		return fmt.Errorf("well-formed OTLP batch rejected: %v", err)
 	}
@@ -180,7 +208,7 @@ func predOTLP(c otlpCase, o *evid.Obs) error {
 	for ri, r := range c.Batch.Resources {
 		for si, sc := range r.Scopes {
 			for pi, sp := range sc.Spans {
-				exp = append(exp, otlpExpect(sp, r, fmt.Sprintf("span %d/%d/%d %q", ri, si, pi, sp.Name)))
+				exp = append(exp, otlpExpect(sp, r, sc.Attrs, fmt.Sprintf("span %d/%d/%d %q", ri, si, pi, trunc(sp.Name))))
 				spans = append(spans, sp)
 				ress = append(ress, r)
 				if sp.ParentID != "" {
@@ -192,16 +220,14 @@ func predOTLP(c otlpCase, o *evid.Obs) error {
 				if len(topLevel(sp.Attrs, "peer.service")) > 0 && len(topLevel(sp.Attrs, "service.name"))+len(topLevel(r.Attrs, "service.name")) > 0 {
 					o.Tag("peer.service+service.name")
 				}
-				for _, kv := range sp.Attrs {
-					if len(topLevel(r.Attrs, kv.Key)) > 0 {
-						o.Tag("span/resource-key-collision")
-						break
-					}
-				}
+				classifyCollisions(sp, r, sc.Attrs, ct)
 			}
 		}
 	}
 	o.Tag(fmt.Sprintf("spans=%s", bucket(len(exp))))
+	if nresp > 1 {
+		o.Tag("flushed-mid-batch(>1MiB)")
+	}
 	if nested > 0 {
 		o.Tag("nested-attr")
 	}
@@ -219,6 +245,16 @@ func predOTLP(c otlpCase, o *evid.Obs) error {
 	}
 	if err := checkTags(exp, tags); err != nil {
 		return err
+	}
+
+	tagGroups := map[string][]tagRow{}
+	for _, t := range tags {
+		tk := tupleKey(t.TraceID, t.SpanID, t.TimestampNs, t.DurationNs)
+		tagGroups[tk] = append(tagGroups[tk], t)
+	}
+	tupleCount := map[string]int{}
+	for _, e := range exp {
+		tupleCount[tupleKey(e.traceID, e.spanID, e.ts, e.dur)]++
 	}
 
 	// reader half
@@ -284,9 +320,189 @@ func predOTLP(c otlpCase, o *evid.Obs) error {
 					return fmt.Errorf("%s: attribute %q read back as %v, pushed %v", e.desc, kv.Key, showAny(gv), showAny(kv.Val.Proto()))
 				}
 			}
+			if tupleCount[tupleKey(e.traceID, e.spanID, e.ts, e.dur)] == 1 {
+				if err := checkAgreement(e, sp, res, rows[i], tagGroups[tupleKey(e.traceID, e.spanID, e.ts, e.dur)], got[k].ServiceName, g, ct); err != nil {
+					return err
+				}
+			} else {
+				ct.Tag("indistinguishable-spans")
+			}
 		}
 	}
 	return nil
+}
+
+// classifyCollisions tags the ways one key reaches a span more than once.
+func classifyCollisions(sp gen.OTLPSpan, res gen.OTLPResource, scopeAttrs []gen.KeyVal, o caseTags) {
+	count := func(kvs []gen.KeyVal) map[string][]gen.AnyVal {
+		m := map[string][]gen.AnyVal{}
+		for _, kv := range kvs {
+			m[kv.Key] = append(m[kv.Key], kv.Val)
+		}
+		return m
+	}
+	same := func(a, b gen.AnyVal) bool { return proto.Equal(a.Proto(), b.Proto()) }
+	sm, rm, cm := count(sp.Attrs), count(res.Attrs), count(scopeAttrs)
+	fam := map[string]bool{}
+	for _, f := range gen.ServiceFamily {
+		fam[f] = true
+	}
+	seen := map[string]bool{}
+	tag := func(t string) {
+		if !seen[t] {
+			seen[t] = true
+			o.Tag(t)
+		}
+	}
+	for k, vs := range sm {
+		if rvs, ok := rm[k]; ok {
+			if same(vs[len(vs)-1], rvs[len(rvs)-1]) {
+				tag("span+resource-key:equal-values")
+			} else {
+				tag("span+resource-key:different-values")
+				if fam[k] {
+					tag("span+resource-key:different-values:service-family")
+				}
+			}
+		}
+		if _, ok := cm[k]; ok {
+			tag("span+scope-key")
+		}
+		if len(vs) > 1 {
+			if same(vs[0], vs[len(vs)-1]) {
+				tag("key-twice-in-span-list:equal-values")
+			} else {
+				tag("key-twice-in-span-list:different-values")
+			}
+		}
+	}
+	for _, vs := range rm {
+		if len(vs) > 1 {
+			tag("key-twice-in-resource-list")
+		}
+	}
+}
+
+func isTextScalar(v gen.AnyVal) bool { return v.K == "s" || v.K == "b" || v.K == "i" || v.K == "d" }
+
+// protoScalarMatches reports whether a read-back value is a scalar whose text form is val.
+func protoScalarMatches(v *common.AnyValue, val string) bool {
+	switch x := v.GetValue().(type) {
+	case *common.AnyValue_StringValue:
+		return x.StringValue == val
+	case *common.AnyValue_BoolValue:
+		return strconv.FormatBool(x.BoolValue) == val
+	case *common.AnyValue_IntValue:
+		return strconv.FormatInt(x.IntValue, 10) == val
+	case *common.AnyValue_DoubleValue:
+		return floatTextMatches(val, x.DoubleValue)
+	}
+	return false
+}
+
+// checkAgreement decides that the index side and the read side keep the SAME occurrence of
+// a key that reaches the span more than once (span list, resource list, twice in a list):
+// whatever single value the tag row of key k (and, for service.name, the service_name
+// column) carries is the value of attribute k in the span read back. Which occurrence wins
+// is qryn's convention (today: the last one, span attributes first, then the resource's) and
+// is not fixed here.
+//
+// Keys outside the rule (counted, not compared): "name" (the index row of that key is the
+// span name by design); keys that some nested attribute also flattens to (a.0 next to a=[..]);
+// keys with an occurrence that has no text form or is a list/map (the index cannot show
+// it, the read path may); service.name when the indexed text could stem from an occurrence
+// that is not a non-empty string (the read path then substitutes a fallback name).
+func checkAgreement(e spanExpect, sp gen.OTLPSpan, res gen.OTLPResource, row traceRow, tags []tagRow, respService string, g *v1.Span, o caseTags) error {
+	type origin struct {
+		top    string
+		scalar bool
+	}
+	origins := map[string][]origin{}
+	opaqueTop := map[string]bool{} // key has a top-level occurrence that is nested, bytes or empty
+	var occ []gen.KeyVal
+	occ = append(occ, sp.Attrs...)
+	occ = append(occ, res.Attrs...)
+	for _, kv := range occ {
+		sc, lo := map[string][]cand{}, map[string][]cand{}
+		flattenInto(kv.Key, kv.Val, sc, lo)
+		for fk := range sc {
+			origins[fk] = append(origins[fk], origin{kv.Key, isTextScalar(kv.Val)})
+		}
+		if !isTextScalar(kv.Val) {
+			opaqueTop[kv.Key] = true
+		}
+	}
+	idx := spanAttrMap(g)
+	for _, t := range tags {
+		k := t.Key
+		if k == "name" {
+			continue
+		}
+		if opaqueTop[k] {
+			o.Tag("agreement-skipped:opaque-occurrence")
+			continue
+		}
+		ok, own := true, false
+		for _, og := range origins[k] {
+			if og.top != k || !og.scalar {
+				ok = false
+			} else {
+				own = true
+			}
+		}
+		if !ok {
+			if own {
+				o.Tag("agreement-skipped:flatten-collision")
+			}
+			continue // a key that (also) comes out of a nested attribute
+		}
+		if len(origins[k]) == 0 && k != "service.name" && k != "remoteService.name" {
+			continue // not a key of this span at all: the row oracle has dealt with it
+		}
+		if k == "service.name" {
+			skip := false
+			for _, v := range append(topLevel(sp.Attrs, k), topLevel(res.Attrs, k)...) {
+				sc, lo := map[string][]cand{}, map[string][]cand{}
+				flattenInto("k", v, sc, lo)
+				if matchAny(sc["k"], t.Val) && !(v.K == "s" && v.Str() != "") {
+					skip = true
+				}
+			}
+			if skip {
+				o.Tag("agreement-skipped:service.name-not-a-non-empty-string")
+				continue
+			}
+		}
+		pos := idx[k]
+		if len(pos) != 1 {
+			return fmt.Errorf("%s: key %q is indexed with value %q but occurs %d times in the span read back", e.desc, k, trunc(t.Val), len(pos))
+		}
+		gv := g.Attributes[pos[0]].Value
+		if !protoScalarMatches(gv, t.Val) {
+			return fmt.Errorf("%s: key %q is indexed with value %q but the span read back shows %s (occurrences pushed: span %v, resource %v)", e.desc, k, trunc(t.Val), trunc(showAny(gv)),
+				showVals(topLevel(sp.Attrs, k)), showVals(topLevel(res.Attrs, k)))
+		}
+		if len(origins[k]) > 1 {
+			o.Tag("agreement-checked:key-with-several-occurrences")
+		}
+		if k == "service.name" {
+			if row.ServiceName != gv.GetStringValue() {
+				return fmt.Errorf("%s: service_name column holds %q but the span read back shows service.name=%s", e.desc, row.ServiceName, showAny(gv))
+			}
+			if respService != row.ServiceName {
+				return fmt.Errorf("%s: service_name column holds %q but the read path files the span under service %q", e.desc, row.ServiceName, respService)
+			}
+		}
+	}
+	return nil
+}
+
+func showVals(vs []gen.AnyVal) string {
+	var parts []string
+	for _, v := range vs {
+		parts = append(parts, trunc(showAny(v.Proto())))
+	}
+	return "[" + strings.Join(parts, ", ") + "]"
 }
 
 func showAny(v *common.AnyValue) string {
